@@ -40,7 +40,10 @@ ASSUMPTIONS = [
     "and against the mean / sum of 'none' always",
     "definitions: diffusion 1/2 sum A_ij^2; divergence 1/2 (tr A)^2; elasticity lambda/2 (tr A)^2 + mu/4 sum (A_jk + A_kj)^2; TV sum |A_ij|; "
     "grad (sum |A_ij|^p)^q; bending sum_k ||Hess u_k||_F^2; curvature 1/2 sum_k (laplace u_k)^2 (Fischer & Modersitzki)",
-    "elastic constants: only materials with lambda, mu > 0 (0 < nu < 1/2); spacing=None = normalised cube spacing 2/(n-1)",
+    "elastic constants: materials with mu > 0 and lambda >= 0 (0 <= nu < 1/2, including the boundary nu = lambda = 0); an auxetic material (nu = -0.3, lambda < 0) "
+    "is run but not judged where lame_parameters rejects it with its explicit ValueError; pairs that do not determine the material (lambda = 0 with nu = 0; "
+    "lambda < 0 with E) are not judged; spacing=None = normalised cube spacing 2/(n-1)",
+    "inverse consistency masks: every non-zero mask value is full-weight foreground (docstring: 'errors at points with a zero mask value are ignored')",
     "inverse consistency of exp(v), exp(-v) is interpolation limited and judged as relations: error(A) <= error against the identity / 4 and error(A/2) <= 0.75 error(A) (observed ratios 0.25 .. 0.39: second order)",
     "reduction='none' on 3-D (linear) tensors raises a documented NotImplementedError: not judged",
 ]
@@ -503,8 +506,18 @@ def case_lame(J: Judge, case):
     else:
         consts = E.constants(lam, mu)
         kw = {k: consts[k] for k in case["names"]}
+        if case.get("ints"):  # the same boundary value given as a Python int (0 instead of 0.0)
+            kw = {k: (int(v) if float(v).is_integer() else v) for k, v in kw.items()}
+        why = E.undetermined(case["names"], lam, mu)
+        if why:
+            J.undef.append(why)
+            return
     rtol = 1e-9
     st, r = J.call("lame_parameters", L.lame_parameters, **kw)
+    if st == "raises" and lam < 0 and isinstance(r, ValueError) and "negative" in str(r):
+        # deliberate input validation of the implementation (lambda >= 0 only); whether an auxetic material is a "valid pair" is left open
+        J.undef.append("auxetic material (nu < 0, lambda < 0): rejected by an explicit ValueError of lame_parameters")
+        return
     if st == "raises":
         J.raised("lame_parameters", r)
     else:
@@ -721,7 +734,19 @@ def ic_mask(shape, N, kind):
     elif kind == "per-item":
         for i in range(N):
             m[i, ..., : 1 + i] = 0
+    elif kind in ("label", "label-int", "soft", "neg", "uint8"):
+        # three vertical bands along x: background | value a | value b ; every NON-ZERO value is foreground (docstring)
+        a, b = {"label": (2, 3), "label-int": (2, 3), "soft": (0.5, 1), "neg": (-1, -1), "uint8": (1, 2)}[kind]
+        n = shape[-1]
+        m[..., : n // 3] = 0
+        m[..., n // 3: (2 * n) // 3] = a
+        m[..., (2 * n) // 3:] = b
+        for i in range(1, N):  # items differ: second item has one more background column
+            m[i, ..., : n // 3 + 1] = 0
     return m
+
+
+MASK_DTYPE = {"label-int": torch.int64, "uint8": torch.uint8}
 
 
 def case_ic_units(J: Judge, case):
@@ -731,6 +756,7 @@ def case_ic_units(J: Judge, case):
     N = len(case["t"])
     dtype = DT[case["dtype"]]
     T = np.array(case["t"], float)  # (N, D), normalised units
+    Ms = np.array(case["M"], float) if "M" in case else None  # (N, D, D): forward x -> M x + t (non-constant error (M - I) x + t)
     if g is None:
         size, spacing, ac = list(case["size"]), [1.0] * D, True
         grid = None
@@ -754,6 +780,14 @@ def case_ic_units(J: Judge, case):
     units = case["units"]
     k = unit_factors(size, spacing, ac, units)
     mag = np.sqrt(((T * k) ** 2).sum(1))  # (N,)
+    errmap = None
+    if Ms is not None:
+        X = ic_coords(size, ac)  # (*shape, D)
+        if rep in ("tensor", "tensor-flow"):
+            fwd = torch.tensor(np.concatenate([Ms, T[:, :, None]], axis=2), dtype=dtype)
+        else:
+            fwd = torch.cat([flow_of_affine(Ms[i], T[i], X, dtype) for i in range(N)], dim=0)
+        errmap = np.stack([np.sqrt(((((X @ (Ms[i] - np.eye(D)).T) + T[i]) * k) ** 2).sum(-1)) for i in range(N)])
     opt = case["opt"]
     kw = {"units": units}
     if grid is not None:
@@ -764,14 +798,16 @@ def case_ic_units(J: Judge, case):
     mask = None
     if case.get("mask"):
         mask = ic_mask(shape, 1 if case["mask"].endswith("@1") else N, case["mask"].split("@")[0])
-        kw["mask"] = torch.tensor(mask, dtype=dtype if case.get("mask_dtype", "float") == "float" else torch.bool)
+        mkind = case["mask"].split("@")[0]
+        mdt = MASK_DTYPE.get(mkind, dtype if case.get("mask_dtype", "float") == "float" else torch.bool)
+        kw["mask"] = torch.tensor(mask, dtype=mdt)
     # reference: per-point error and which points count
     if isinstance(margin, float):
         m = [int(margin * n) for n in size]
     else:
         m = [int(margin)] * D
     sub = tuple(slice(mm, n - mm) for mm, n in zip(m[::-1], shape))
-    exp = np.stack([np.full(shape, mag[i]) for i in range(N)])
+    exp = np.stack([np.full(shape, mag[i]) for i in range(N)]) if errmap is None else errmap
     fg = np.ones((N,) + shape, bool)
     if mask is not None:
         fg = np.broadcast_to(mask[:, 0] != 0, (N,) + shape).copy()
@@ -779,7 +815,7 @@ def case_ic_units(J: Judge, case):
     exp = exp[(slice(None),) + sub]
     fg = fg[(slice(None),) + sub]
     eps = EPS[case["dtype"]]
-    tol = C * eps * 4.0 * float(np.linalg.norm(k)) * (1.0 + float(np.abs(T).max()))
+    tol = C * eps * 4.0 * float(np.linalg.norm(k)) * (1.0 + float(np.abs(T).max()) + (float(np.abs(Ms).max()) * D * (max(size) if "flow" in rep else 1) if Ms is not None else 0.0))
     count = int(fg.sum())
     for red in ("none", "mean", "sum"):
         st, r = ic_call(J, "ic", fwd, inv, reduction=red, **kw)
@@ -792,11 +828,11 @@ def case_ic_units(J: Judge, case):
             if a.shape != exp.shape:
                 J.bad("none/shape", f"shape {a.shape} expected {exp.shape}")
                 continue
-            J.close("none/value", f"|t| in {units}", a, exp, tol)
+            J.close("none/value", f"point-wise error in {units} units", a, exp, tol)
         elif red == "mean":
             if count == 0:
                 continue
-            J.close("mean/value", f"mean of a uniform error |t| over {count} counted points", float(a), float(exp.sum()) / count, tol)
+            J.close("mean/value", f"mean error over the {count} counted (foreground, inside margin) points", float(a), float(exp.sum()) / count, tol)
         else:
             J.close("sum/value", f"sum over {count} counted points", float(a), float(exp.sum()), tol * max(count, 1))
 
@@ -1141,10 +1177,12 @@ def cases_of(shard):
                                     out.append({"sub": "linear", "fn": fn, "args": args, "form": form, "tensor": tensor, "D": D, "N": N, "dtype": dt, "mode": mode, "kind": tensor})
     elif kind == "lame":
         for D in (2, 3):
-            for mat in E.MATERIALS[seed % 4]:
+            for mat in E.MATERIALS[seed % 4] + E.BOUNDARY_MATERIALS:
                 for a, b in E.pairs():
                     out.append({"sub": "lame", "kind": "pair", "pair": E.pair_kind(a, b), "names": [a, b], "material": list(mat), "D": D, "seed": seed})
                     out.append({"sub": "lame", "kind": "pair", "pair": E.pair_kind(b, a), "names": [b, a], "material": list(mat), "D": D, "seed": seed})
+                    if mat in E.BOUNDARY_MATERIALS:
+                        out.append({"sub": "lame", "kind": "pair-int", "pair": E.pair_kind(a, b), "names": [a, b], "material": list(mat), "D": D, "seed": seed, "ints": True})
             out.append({"sub": "lame", "kind": "preset", "pair": "rubber", "material": [0, 0], "D": D, "seed": seed})
     elif kind == "ic-zero":
         D = shard["D"]
@@ -1178,6 +1216,31 @@ def cases_of(shard):
                                         c["size"] = IC_GRIDS[D][0]["size"]
                                     c.update(okw)
                                     out.append(c)
+    elif kind == "ic-mask":
+        # NON-constant error (affine forward, identity inverse) so that a mask-weighted mean differs from the foreground mean
+        D, units = shard["D"], shard["units"]
+        Mgen = {2: [[[0.75, 0.125], [-0.25, 0.625]], [[1.25, -0.125], [0.0625, 0.875]]],
+                3: [[[0.75, 0.125, 0.0], [-0.25, 0.625, 0.0625], [0.03125, -0.125, 0.5]], [[1.25, 0.0, -0.125], [0.0625, 0.875, 0.0], [0.0, 0.125, 1.125]]]}[D]
+        T = IC_T[D]
+        g0 = IC_GRIDS[D][0]
+        for ac in (True, False):
+            g = dict(g0, ac=ac)
+            for rep in ("tensor", "flow"):
+                for mk in (None, "label", "label-int", "soft", "neg", "uint8", "bool"):
+                    for margin in (0, 1):
+                        for N, suffix in ((1, ""), (2, ""), (2, "@1")):
+                            if mk is None and suffix:
+                                continue
+                            c = {"sub": "ic-units", "grid": g, "units": units, "ac": ac, "rep": rep, "kind": rep, "dtype": "f32",
+                                 "opt": "affine/" + (f"mask-{mk}" if mk else "nomask") + ("+margin" if margin else "") + ("-batch1" if suffix else ""),
+                                 "t": T[:N], "M": Mgen[:N]}
+                            if mk == "bool":
+                                c["mask"], c["mask_dtype"] = "half" + suffix, "bool"
+                            elif mk:
+                                c["mask"] = mk + suffix
+                            if margin:
+                                c["margin"] = margin
+                            out.append(c)
     elif kind == "ic-exp":
         for shape in ([17, 17], [9, 10], [9, 8, 9]):
             for ac in (True, False):
@@ -1210,6 +1273,7 @@ def shards(tier: str, seed: int):
         out.append({"tier": tier, "seed": seed, "kind": "ic-zero", "D": D})
         for units in ("cube", "voxel", "world"):
             out.append({"tier": tier, "seed": seed, "kind": "ic-units", "D": D, "units": units})
+            out.append({"tier": tier, "seed": seed, "kind": "ic-mask", "D": D, "units": units})
     out.append({"tier": tier, "seed": seed, "kind": "linear"})
     out.append({"tier": tier, "seed": seed, "kind": "lame"})
     out.append({"tier": tier, "seed": seed, "kind": "ic-exp"})
@@ -1230,7 +1294,7 @@ def bounds(tier):
         "affine_menu": {"D2": len(analytic_matrices(2, 0)), "D3": len(analytic_matrices(3, 0))},
         "field_scales": [-1.0, 2.0, -0.5, 3.0] if tier == "thorough" else [-0.5, 3.0],
         "spacing_scales": [2.0, 0.5] if tier == "thorough" else [2.0],
-        "elastic_materials": 4,
+        "elastic_materials": "4 generic (by seed) + boundary: (lambda=0, nu=0) x 2, near-incompressible nu=0.49, auxetic nu=-0.3",
         "elastic_pairs": len(E.pairs()) * 2,
         "ic_grids": {"D2": len(IC_GRIDS[2]), "D3": len(IC_GRIDS[3])},
         "ic_units": ["cube", "voxel", "world"],
